@@ -156,6 +156,20 @@ TPL_COMBOS = [
     ("separator='___', max_length=9", dict(separator="___", lowercase=False, keep_zeros=False, max_length=9)),
     ("separator='-.-', max_length=5", dict(separator="-.-", lowercase=False, keep_zeros=False, max_length=5)),
 ]
+# argument combinations zerv refuses today (a preset together with custom knobs): a refusal is fine, but a value that comes back is a sanitiser result
+# and is judged against the contract of the preset with that knob
+OPT_COMBOS = [
+    ("preset='dotted', max_length=8", dict(separator=".", lowercase=False, keep_zeros=False, max_length=8)),
+    ("preset='dotted', max_length=6", dict(separator=".", lowercase=False, keep_zeros=False, max_length=6)),
+    ("preset='semver', max_length=3", dict(separator=".", lowercase=False, keep_zeros=False, max_length=3)),
+    ("preset='pep440', max_length=5", dict(separator=".", lowercase=True, keep_zeros=False, max_length=5)),
+    ("preset='lower_dotted', max_length=1", dict(separator=".", lowercase=True, keep_zeros=False, max_length=1)),
+    ("preset='dotted', max_length=0", dict(separator=".", lowercase=False, keep_zeros=False, max_length=0)),
+    ("preset='dotted', keep_zeros=true", dict(separator=".", lowercase=False, keep_zeros=True, max_length=None)),
+    ("preset='dotted', lowercase=true", dict(separator=".", lowercase=True, keep_zeros=False, max_length=None)),
+    ("preset='pep440', lowercase=false", dict(separator=".", lowercase=False, keep_zeros=False, max_length=None)),
+    ("preset='semver', separator='-'", dict(separator="-", lowercase=False, keep_zeros=False, max_length=None)),
+]
 TL, TR = "\u2039", "\u203a"
 
 
@@ -166,7 +180,7 @@ def work_template(bins, strings):
     tpl = "".join("%s{{ sanitize(value=bumped_branch%s) }}%s" % (TL, (", " + a) if a else "", TR) for a, _ in TPL_COMBOS)
     schema = dict(core=[("var", "Major")], extra_core=[], build=[])
     bad = []
-    n = 0
+    n = nopt = opt_refused = opt_answered = 0
     for s_ in strings:
         if TL in s_ or TR in s_ or "\x00" in s_:
             continue
@@ -196,7 +210,23 @@ def work_template(bins, strings):
             v = judge(cfg, s_, got)
             if v is not None:
                 bad.append((v[0], "template sanitize(value=%r, %s) = %r; %s" % (s_, args, got, v[1]), s_, got))
-    return dict(n=n, bad=bad)
+        nopt += 1
+        if nopt % 4 == 0:
+            for args, cfg in OPT_COMBOS:
+                rep = pr.call(dict(op="template", template="%s{{ sanitize(value=bumped_branch, %s) }}%s" % (TL, args, TR), ron=text))
+                if "panic" in rep:
+                    bad.append(("panic@" + _loc(rep.get("at", "?")), "template sanitize(%s) panicked: %s" % (args, rep["panic"]), s_, None))
+                    continue
+                out = rep.get("ok")
+                if not isinstance(out, str) or not (out.startswith(TL) and out.endswith(TR)):
+                    opt_refused += 1            # refused (today's behaviour): nothing to judge
+                    continue
+                n += 1
+                opt_answered += 1
+                v = judge(cfg, s_, out[1:-1])
+                if v is not None:
+                    bad.append((v[0], "template sanitize(value=%r, %s) = %r; %s" % (s_, args, out[1:-1], v[1]), s_, out[1:-1]))
+    return dict(n=n, bad=bad, opt_refused=opt_refused, opt_answered=opt_answered)
 
 
 def enumerate_strings(maxlen):
@@ -264,10 +294,12 @@ def run(ctx):
         ctx.count("preset_calls", r["n"])
         for sig, why, s, out in r["bad"]:
             ctx.refute(sig, "%s sanitize(%r) = %r; %s" % (p, s, out, why), dict(kind="preset", preset=p, input=s), observed=out, expected=why)
-    tstr = [x for x in base if len(x) <= 4][::3] + rand[:1500] + ["feature/long-branch-name", "/hotfix/login", "build-00a7", "feature/new-login", "-00a", "_ab_00x"]
+    tstr = [x for x in base if len(x) <= 4][::3] + rand[:1500] + ["feature/long-branch-name", "/hotfix/login", "build-00a7", "feature/new-login", "-00a", "_ab_00x", "feature/test-branch", "rel-007x", "ab/cdef.gh", "a.b.c.d.e.f"]
     for r in core.pmap(work_template, [(ctx.bins, p) for p in core.split_even(tstr, 16)]):
         ctx.evaluations += r["n"]
         ctx.count("template_function_calls", r["n"])
+        ctx.count("template_preset_with_knob_refused", r.get("opt_refused", 0))
+        ctx.count("template_preset_with_knob_answered_and_judged", r.get("opt_answered", 0))
         for sig, why, s_, out in r["bad"]:
             ctx.refute(sig, why, dict(kind="template", input=s_), observed=out)
     ctx.exhaustive = True
